@@ -15,15 +15,8 @@ def run_hist(cases, nshards=None):
     def work(sh):
         if not sh:
             return {}
-        inp = "".join(json.dumps({k: c[k] for k in ("id", "backend", "srcs", "events", "times", "inputs")}) + "\n" for c in sh)
-        p = mmh("C06", [], input=inp)
-        res = {}
-        for l in p.stdout.splitlines():
-            f = l.split("\t")
-            if len(f) >= 3:
-                res[f[0]] = (f[1], f[2])
-        for c in sh:
-            res.setdefault(c["id"], ("harness-died rc=%s" % p.returncode, "-"))
+        raw = run_isolated(os.path.join(BIN, "c06"), [(c["id"], json.dumps({k: c[k] for k in ("id", "backend", "srcs", "events", "times", "inputs")})) for c in sh])
+        res = {i: ((f[0], f[1]) if len(f) >= 2 else (f[0], "-")) for i, f in raw.items()}
         return res
     out = {}
     for r in parallel(shards, work, nproc=nshards):
